@@ -298,6 +298,11 @@ def m3(ctx, al, count):
             n = rng.randint(3, 12)
             x = [rng.randint(-5, 5) for _ in range(n)]
             order = rng.randint(1, min(6, n + 1 if kind == "ka" else n - 1))
+            if kind == "kc" and rng.random() < 0.3:
+                # high orders on longer blocks (every basis vector of the Gram-Schmidt machine matters)
+                n = rng.randint(15, 20)
+                x = [rng.randint(-3, 3) for _ in range(n)]
+                order = rng.randint(7, 9)
             c = gram(x, order, 1, n + order) if kind == "ka" else gram(x, order, order + 1, n)
             sol = L.solve_gram(c)
             if sol is None or not screen(c, sol[0], sol[1]):
